@@ -93,8 +93,10 @@ PROPS["C07"] = {
     "rule": "resources/model.bin and 41 (quick) / 1501 (thorough) generated models (empty tables, 4-byte strings, extreme i32, "
             "255 windows, tag models): bytes of to_vec compared byte for byte; read_slice and read on EVERY proper prefix "
             "(incl. shorter than the header), with trailing bytes, with every header byte mutated; readers and writers failing "
-            "at sampled (quick) / all (thorough) byte positions; non-trivial = distinct case in which some read/write succeeded or bytes were produced",
+            "at sampled (quick) / all (thorough) byte positions; the same files are read back and re-serialised in builds of 7 (quick) / 32 (thorough) "
+            "cargo-feature subsets of vaporetto (no_std/alloc, without tag-prediction, ...) and compared with the model's bytes; non-trivial = distinct case in which some read/write succeeded or bytes were produced",
     "scopes": {"quick": "every truncation point of every generated file", "thorough": "every truncation point and every fault position"},
+    "extras": [extras.feature_models],
     "assumptions": ["bincode's derive order and primitive encodings are as modelled (the model's bytes are compared with the real ones)"],
 }
 
